@@ -374,7 +374,8 @@ impl<'a> Model<'a> {
             Val::Str(segs) => self.resolve_segs(segs, ns, loc, stack),
             Val::Int(v) => Ok(vec![R::Lit(v.to_string())]),
             Val::UInt(v) => Ok(vec![R::Lit(v.to_string())]),
-            Val::Float(v) => Ok(vec![R::Lit(v.clone())]),
+            // a float literal is shown the way Rust displays the f64 it denotes ("20.0" -> "20", "2e20" -> "200000000000000000000")
+            Val::Float(v) => Ok(vec![R::Lit(v.parse::<f64>().map(|f| f.to_string()).unwrap_or_else(|_| v.clone()))]),
             Val::Bool(v) => Ok(vec![R::Lit(v.to_string())]),
             Val::Range(r) => {
                 let ty = match &r.ty {
@@ -799,7 +800,7 @@ pub struct Env {
     /// render components as real `<b>..</b>` tags (what the `&str` DisplayComponent and the probe's
     /// view components produce) instead of the evaluator's distinct brackets
     pub html_tags: bool,
-    /// leptos SSR renders an empty text child as a single space: `<b></b>` comes out as `<b> </b>`
+    /// leptos SSR renders an empty text node as a single space: `<b></b>` comes out as `<b> </b>`, a value that is the empty string as ` `
     pub empty_child_space: bool,
 }
 
@@ -839,6 +840,10 @@ pub enum RenderErr {
 pub fn render(rs: &[R], env: &Env) -> Result<String, RenderErr> {
     let mut out = String::new();
     render_into(rs, env, &BTreeMap::new(), &mut out)?;
+    // leptos SSR writes an empty text node as one space (also when the whole value is the empty string)
+    if env.empty_child_space && out.is_empty() {
+        out.push(' ');
+    }
     Ok(out)
 }
 
